@@ -41,6 +41,11 @@ func (d *Pegnetd) GradeS(ctx context.Context, block *factom.EBlock) (graderStake
 		for i := range entry.ExtIDs {
 			extids[i] = entry.ExtIDs[i]
 		}
+		// A staking record has exactly 3 external ids; fewer than 2 cannot
+		// name a staker, so the entry is skipped like any other bad record.
+		if len(extids) < 2 {
+			continue
+		}
 		// allow only top 100 stake holders submit prices
 		stakerRCD := extids[1]
 		if d.Pegnet.IsIncludedTopPEGAddress(stakerRCD) {
